@@ -31,6 +31,12 @@ fn ipp_uri_to_string(uri: &Uri) -> String {
     format!("{}://{}{}", scheme, authority, path_and_query)
 }
 
+#[cfg(ancwrd1_ipp_rs_verif)]
+/// Verification hook: exposes the private transport URL mapping to the external harness
+pub fn verif_transport_url(uri: &Uri) -> String {
+    ipp_uri_to_string(uri)
+}
+
 /// Builder to create IPP client
 pub struct IppClientBuilder<T> {
     uri: Uri,
